@@ -319,7 +319,12 @@ class DataGen:
             if a == "bmp":
                 return chr(rng.choice([rng.randrange(0x800, 0xD800), rng.randrange(0xE000, 0x10000)]))
             return chr(rng.randrange(0x10000, 0x110000))
-        return "".join(ch() for _ in range(n))
+        out = "".join(ch() for _ in range(n))
+        if n and rng.random() < 0.12:
+            # characters that codecs / text layers like to treat specially, at the START (BOM, NUL, line and paragraph separators,
+            # a combining mark, the replacement character) -- they are ordinary string content for Avro
+            out = rng.choice(["\ufeff", "\ufeff\ufeff", "\x00", "\u2028", "\u2029", "\x85", "\u0301", "\ufffd", "\ufffe", " ", "\n", "\t"]) + out[1:]
+        return out
 
     def bytes_(self, n=None):
         rng = self.rng
